@@ -508,7 +508,12 @@ func (r *zeroAllocReader) Read(p []byte) (int, error) {
 
 // heldBytes runs a stream of n bytes in tokens of length T, freeing every token (immediately or delayed), and returns the
 // live heap (after GC, lexer still reachable) attributable to the lexer.
+// lexeme: the token is looked at with Lexeme() half way and just before it is shifted (a refill that follows keeps the
+// bytes handed out alive until they are freed: that bookkeeping must not leak either)
+var lexemeMode bool
+
 func heldBytes(n, B, T, chunk, delay int) (uint64, error) {
+	lexeme := lexemeMode
 	r := &zeroAllocReader{n: n, chunk: chunk}
 	var m0, m1 runtime.MemStats
 	runtime.GC()
@@ -528,6 +533,11 @@ func heldBytes(n, B, T, chunk, delay int) (uint64, error) {
 				return 0, fmt.Errorf("wrong byte at %d", off+i)
 			}
 			z.Move(1)
+			if lexeme && (i == T/2 || i == T-1) {
+				if l := z.Lexeme(); len(l) != i+1 {
+					return 0, fmt.Errorf("Lexeme() has %d bytes after %d moves", len(l), i+1)
+				}
+			}
 		}
 		if i == 0 {
 			break
@@ -566,6 +576,8 @@ func TestProp_Memory(t *testing.T) {
 		T := rapid.OneOf(rapid.IntRange(1, 16), rapid.IntRange(1, 300), rapid.IntRange(1000, 20000)).Draw(t, "T")
 		chunk := rapid.SampledFrom([]int{1, 3, 13, 512, 4096, 100000}).Draw(t, "chunk")
 		delay := rapid.IntRange(0, 3).Draw(t, "delay")
+		lexemeMode = rapid.Bool().Draw(t, "lexeme")
+		defer func() { lexemeMode = false }()
 		n := 2 << 20
 		if m := 256 * (B + T); m > n {
 			n = m
